@@ -273,12 +273,62 @@ def corpus(profile, geom, n, seed, cfgs=None, prefix="r", safe_first=False, leng
         if profile == "oreclaim":
             out.append(oreclaim_behaviour(r, geom, "%s%d" % (prefix, i), cfg))
             continue
+        if profile == "freclaim":
+            out.append(file_boundary_reclaim_behaviour(r, geom, "%s%d" % (prefix, i), cfg))
+            continue
         if profile == "latep":
             out.append(late_persister_behaviour(r, geom, "%s%d" % (prefix, i), cfg))
             continue
         out.append(gen_behaviour(r, profile, geom, "%s%d" % (prefix, i), cfg, safe_first=safe_first,
                                  length=(r.randint(*length) if length else None)))
     return out
+
+
+def file_boundary_reclaim_behaviour(r, geom, bid, cfg):
+    """Scenario family for C12: a topic's first block is the block that OPENS a new WAL file (the previous file
+    was handed out completely by other topics), the rest of that file is filled, sealed and consumed by another
+    topic, while the first block stays unconsumed: the file must not be reclaimed before that topic is consumed
+    too. Also the mirror image: the unconsumed block is the LAST block of the previous file."""
+    g = GEOM[geom]
+    ids = IdGen()
+    blk, bpf = g["block"], g["bpf"]
+    full = blk - PREFIX
+    big, small, third = r.choice([("a", "b", "c"), ("b", "a", "c"), ("c", "a", "b")])
+    ops = []
+    # file 1: bpf-1 blocks of `big`, last block taken by `small`
+    for _ in range(bpf - 1):
+        ops.append({"op": "append", "t": big, "id": ids.next(), "size": full - r.choice([0, 0, 1, 9])})
+    ops.append({"op": "append", "t": small, "id": ids.next(), "size": r.choice([8, 100, 300])})
+    # file 2: opened by `third`
+    ops.append({"op": "append", "t": third, "id": ids.next(), "size": r.choice([8, 100, 300])})
+    # `big` takes the remaining blocks of file 2 and one block of file 3 (file 2 is fully handed out)
+    for _ in range(bpf):
+        ops.append({"op": "append", "t": big, "id": ids.next(), "size": full - r.choice([0, 0, 1, 9])})
+    # the small blocks are sealed by rotation (so nothing of files 1 and 2 is locked)
+    for t in r.sample([small, third], 2):
+        ops.append({"op": "append", "t": t, "id": ids.next(), "size": full})
+    if r.random() < 0.3:
+        ops.append({"op": "reopen", "i": 0, "proc": "same", "ro": True, "delay_ms": 0})
+    # consume `big` completely, and one of the two small topics
+    def drain(t):
+        out = []
+        for _ in range(2 * bpf + 2):
+            out.append(r.choice([{"op": "read", "t": t, "ckpt": True},
+                                 {"op": "bread", "t": t, "budget": r.choice([-1, 0, blk]), "ckpt": True, "off": -1}]))
+        out.append({"op": "read", "t": t, "ckpt": True})
+        return out
+    ops += drain(big)
+    first = r.choice([small, third])
+    ops += drain(first)
+    # peeks and empty polls on the unconsumed topic must not help either
+    other = third if first == small else small
+    ops.append({"op": "read", "t": other, "ckpt": False})
+    ops.append({"op": "bread", "t": other, "budget": 0, "ckpt": False, "off": -1})
+    ops += drain(other)
+    c = dict(cfg)
+    c["topics"] = ["a", "b", "c"]
+    c["proj"] = True
+    return {"id": bid, "cfg": c, "ops": ops}
 
 
 def late_persister_behaviour(r, geom, bid, cfg):
